@@ -156,6 +156,9 @@ class Extractor:
             else:
                 if pat in drop:
                     continue
+                if opts and opts.get("dropunused") and not re.search(r"\b" + re.escape(pat) + r"\b", a.body):
+                    # R1: a parameter the block never mentions (context / out / vm handed to every action) cannot affect it
+                    continue
                 params.append(f"{pat}: {self._ty(ty)}")
         ret = self._ty(a.ret)
         fsig = f"fn {name}({', '.join(params)}) -> {ret}" if ret != "()" else f"fn {name}({', '.join(params)})"
@@ -473,7 +476,7 @@ def expand(template: str, ex: Extractor) -> str:
         if kind in ("fn", "action"):
             # collect contract block
             contract, loops = [], {}
-            opts = {"ghost": [], "after": [], "before": [], "str": [], "strslice": False}
+            opts = {"ghost": [], "after": [], "before": [], "str": [], "strslice": False, "dropunused": False}
             j = i + 1
             if j < len(lines) and lines[j].strip().startswith("//@contract"):
                 j += 1
@@ -484,6 +487,8 @@ def expand(template: str, ex: Extractor) -> str:
                     om = re.match(r"//@(ghost|after|before|str)\s+(.*)$", s)
                     if s == "//@strslice":
                         opts["strslice"] = True
+                    elif s == "//@dropunused":
+                        opts["dropunused"] = True
                     elif om and cur_loop is None:
                         if om.group(1) == "str":
                             opts["str"] += om.group(2).split()
